@@ -100,7 +100,7 @@ fn evaluate(prepared: &[Prepared], o: &Opts, skip: &BTreeSet<String>, before: &m
                                    "got": got.map(hex).unwrap_or_else(|| "trap".into()), "domain": d.describe()}),
                         );
                     }
-                    sink(Outcome { key, prepared_backend: up.case.backend.clone(), inst: format!("{u}+{dn}"), is_cast: true, template: format!("{} ; {}", up.case.template, down.case.template), profile: up.profile.clone(), stats: st, domain: d.describe(), witness: w });
+                    sink(Outcome { key, prepared_backend: up.case.backend.clone(), inst: format!("{u}+{dn}"), is_cast: true, template: format!("{} ; {}", up.case.template, down.case.template), profile: up.profile.clone(), stats: st, domain: d.describe(), witness: w, soft: None });
                 }
             }
         }
@@ -148,9 +148,21 @@ fn run_native_forked(plan: &NativePlan, libs: &[(String, PathBuf)], o: &Opts, di
                         }
                     };
                     lib.init();
-                    for (id, case, sem, ot, rt, _, _) in &plan.prepared {
-                        if let Some(f) = lib.batch(*id) {
-                            prepared.push(Prepared { case: case.clone(), sem: sem.clone(), operand_ty: *ot, result_ty: *rt, eval: Evaluator::Native(f), profile: profile.clone() });
+                    for np in &plan.prepared {
+                        let id = np.id;
+                        if let Some(f) = lib.batch(id) {
+                            let (rt, soft) = if np.infer {
+                                match lib.tag(id) {
+                                    Some(t) => (t, Some(format!("the expression has type {} and does not type-check against the declared type `{}`", t.name(), np.rname))),
+                                    None => {
+                                        eprintln!("symbol case_{id}_tag missing");
+                                        return 4;
+                                    }
+                                }
+                            } else {
+                                (np.result_ty, None)
+                            };
+                            prepared.push(Prepared { case: np.case.clone(), sem: np.sem.clone(), operand_ty: np.operand_ty, result_ty: rt, eval: Evaluator::Native(f), profile: profile.clone(), soft });
                         } else {
                             eprintln!("symbol case_{id} missing");
                             return 4;
@@ -289,8 +301,8 @@ fn main() {
                     }
                 }
                 Err(e) => {
-                    for (_, c, ..) in &plan.prepared {
-                        inconclusive.push((backend.clone(), c.inst.clone(), c.template.clone(), e.clone()));
+                    for np in &plan.prepared {
+                        inconclusive.push((backend.clone(), np.case.inst.clone(), np.case.template.clone(), e.clone()));
                     }
                 }
             }
@@ -350,7 +362,10 @@ fn main() {
     for oc in &outcomes {
         let s = &oc.stats;
         rep.evals(s.evaluated);
-        if s.evaluated > 0 {
+        if let (Some(soft), true) = (&oc.soft, s.bad.is_empty()) {
+            // values agree but the generated code would not type-check: not a verdict of this property
+            inconclusive.push((oc.prepared_backend.clone(), oc.inst.clone(), oc.template.clone(), format!("{soft}; all {} evaluated values agree with the canonical mapping", s.evaluated)));
+        } else if s.evaluated > 0 {
             // identity expressions (the operand passed through unchanged) are the trivial cases
             if oc.template.trim() != VAR {
                 rep.distinct(&oc.key);
